@@ -31,6 +31,10 @@
                                 selected; the nested switch of another type precedes the label
      enum                       enum { N = v }; then in an inner scope enum { N = N op c, M } (shadow / blockshadow), or the
                                 chain enum { A = v, B = A op c, C }: value of the redefined / dependent enumerator and its successor
+     asgv                       the VALUE of an assignment d = x (d : b, x : a) used as initializer of a long, compared,
+                                as a condition, returned, as an index, as an argument, and chained c = d = x
+     wrap0                      (T)(x op y) with unsigned x, y whose result wraps to exactly 0 (or just past it) in the operand type
+     fcmp                       floating operands (NaN, infinities, -0, ...) of < > <= >= == != && || ! ?: and casts to integer types
      ptr                        pointers into an array of element size 1,2,4,8,12,24: p + i, i + p, p - i with i
                                 of every integer type (value of i, not its conversion: unsigned int >= 2^31
                                 moves forward), p - q (long), p < q ... (int); values are element indexes    *)
@@ -114,6 +118,11 @@ Cases ==
   \cup ({"aincdec"} \X {"preinc", "predec", "postinc", "postdec"} \X N1 \X Types \X N1 \X N1)
   \cup ({"case"} \X N1 \X {"-", "char", "uchar", "int", "uint", "long", "ulong"} \X Types \X Types \X N1)
   \cup ({"enum"} \X AsgOps \X {"shadow", "blockshadow", "chain"} \X Types \X N1 \X N1)
+  \cup ({"asgv"} \X {"winit", "cmp", "cond", "ret", "index", "arg"} \X N1 \X Types \X Types \X N1)
+  \cup ({"asgv"} \X {"chain"} \X N1 \X Types \X Types \X Types)
+  \cup ({"wrap0"} \X {"add", "mul", "shl"} \X N1 \X {"uint", "ulong"} \X Types \X N1)
+  \cup ({"fcmp"} \X {"lt", "gt", "le", "ge", "eq", "ne", "land", "lor", "lnot", "cond"} \X N1 \X {"float", "double", "ldouble"} \X N1 \X N1)
+  \cup ({"fcmp"} \X {"toint"} \X N1 \X {"float", "double", "ldouble"} \X Types \X N1)
   \cup ({"ptr"} \X PtrArithOps \X {"1", "2", "4", "8", "12", "24"} \X Types \X N1 \X N1)
   \cup ({"ptr"} \X PtrRelOps \X {"1", "2", "4", "8", "12", "24"} \X N1 \X N1 \X N1)
 
@@ -123,14 +132,26 @@ VT(t) == IF Deep THEN TLCGet(13)[t] ELSE IF CCFam THEN TLCGet(15)[t] ELSE TLCGet
 VS(t) == IF Deep THEN TLCGet(14)[t] ELSE IF CCFam THEN TLCGet(16)[t] ELSE TLCGet(12)[t]
 NV(t) == IF t = "-" THEN 1 ELSE Len(VT(t))
 (* index ranges of the three value coordinates of the current case *)
-NI == IF fam = "ptr" /\ a = "-" THEN Len(KT)
+(* operand pairs whose unsigned result wraps to 0, 0, and just past 0 *)
+WrapPair(t, o, n) ==
+  LET w == W(t)  h == Pow2(w - 1)  q == Pow2(w \div 2)  mx == MaxV(t) IN
+  CASE o = "add" -> (IF n = 1 THEN <<mx, One>> ELSE IF n = 2 THEN <<h, h>> ELSE <<mx, FromInt(3)>>)
+    [] o = "mul" -> (IF n = 1 THEN <<q, q>> ELSE IF n = 2 THEN <<h, FromInt(2)>> ELSE <<Add(h, One), FromInt(2)>>)
+    [] OTHER     -> (IF n = 1 THEN <<h, One>> ELSE IF n = 2 THEN <<q, FromInt(w \div 2)>> ELSE <<Add(h, One), One>>)
+
+NI == IF fam = "asgv" THEN Len(TLCGet(15)[a])
+      ELSE IF fam = "wrap0" THEN 3
+      ELSE IF fam = "fcmp" THEN Len(FV)
+      ELSE IF fam = "ptr" /\ a = "-" THEN Len(KT)
       ELSE IF fam = "case" THEN 2                            \* the two controlling values
       ELSE IF fam = "enum" THEN Len(TLCGet(11)["int"])       \* value of the outer / first enumerator
       ELSE NV(a)
-NJ == IF fam = "ptr" THEN Len(KT)
+NJ == IF fam \in {"asgv", "wrap0"} THEN 1
+      ELSE IF fam = "fcmp" THEN (IF op \in {"lnot", "cond", "toint"} THEN 1 ELSE Len(FV))
+      ELSE IF fam = "ptr" THEN Len(KT)
       ELSE IF fam = "enum" THEN Len(TLCGet(13)[a])
       ELSE IF CCFam \/ fam \in {"un", "cast", "init", "arg", "ret", "assign", "test", "incdec", "aincdec"} THEN 1 ELSE NV(b)
-NK == IF CCFam \/ fam \in {"ptr", "case", "enum"} THEN 1 ELSE NV(c)
+NK == IF CCFam \/ fam \in {"ptr", "case", "enum", "asgv", "wrap0", "fcmp"} THEN 1 ELSE NV(c)
 
 OIdxOf(o) == IF \E n \in 1..Len(BinSeq) : BinSeq[n] = o THEN CHOOSE n \in 1..Len(BinSeq) : BinSeq[n] = o
              ELSE IF \E n \in 1..4 : UnSeq[n] = o THEN CHOOSE n \in 1..4 : UnSeq[n] = o
@@ -138,8 +159,10 @@ OIdxOf(o) == IF \E n \in 1..Len(BinSeq) : BinSeq[n] = o THEN CHOOSE n \in 1..Len
              ELSE IF \E n \in 1..10 : PtrSeq[n] = o THEN CHOOSE n \in 1..10 : PtrSeq[n] = o
              ELSE IF \E n \in 1..6 : SizeSeq[n] = o THEN CHOOSE n \in 1..6 : SizeSeq[n] = o
              ELSE IF o \in Types THEN TIdx(o)
-             ELSE IF o = "blockshadow" THEN 1 ELSE IF o = "chain" THEN 2 ELSE 0
-TI(t) == IF t = "-" THEN 0 ELSE TIdx(t)
+             ELSE IF o = "blockshadow" THEN 1 ELSE IF o = "chain" THEN 2
+             ELSE IF o \in {"float", "double", "ldouble"} THEN (IF o = "float" THEN 1 ELSE IF o = "double" THEN 2 ELSE 3)
+             ELSE IF o \in {"winit", "cmp", "cond", "ret", "index", "arg", "toint"} THEN 3 ELSE 0
+TI(t) == IF t \notin Types THEN (IF t = "float" THEN 11 ELSE IF t = "double" THEN 12 ELSE IF t = "ldouble" THEN 13 ELSE 0) ELSE TIdx(t)
 CaseHash(cs) == OIdxOf(cs[2]) * 101 + OIdxOf(cs[3]) * 59 + TI(cs[4]) * 7 + TI(cs[5]) * 13 + TI(cs[6]) * 17
 (* the depth-2 families are thinned by whole cases (D2Stride), every family by value choice (Stride) *)
 CasePicked(cs) == cs[1] \in {"d2l", "d2r"} =>
@@ -147,7 +170,8 @@ CasePicked(cs) == cs[1] \in {"d2l", "d2r"} =>
                     /\ ((CaseHash(cs) \div D2Base) + Seed) % D2Stride = 0
 (* the small families (unary, casts, the conversion contexts, ++/--) are always enumerated completely;
    depth 2 is thinned by whole cases already, so its value choices are thinned 8 times less *)
-VStride == IF fam \in {"un", "cast", "init", "arg", "ret", "assign", "test", "incdec", "aincdec", "cc"} THEN 1
+VStride == IF fam \in {"un", "cast", "init", "arg", "ret", "assign", "test", "incdec", "aincdec", "cc", "wrap0", "fcmp"} THEN 1
+           ELSE IF fam = "asgv" THEN (IF op # "chain" \/ Stride < 8 THEN 1 ELSE 4)
            ELSE IF fam \in {"opasg", "aopasg"} THEN (IF Stride < 16 THEN 1 ELSE Stride \div 16)
            ELSE IF fam \in {"case", "enum"} THEN (IF Stride < 8 THEN 1 ELSE Stride \div 8)
            ELSE IF fam = "ptr" THEN (IF op \in PtrRelOps \/ Stride < 6 THEN 1 ELSE 6)
@@ -156,6 +180,7 @@ VStride == IF fam \in {"un", "cast", "init", "arg", "ret", "assign", "test", "in
 Pick(ii, jj, kk) == LET h == hb + ii * 31 + jj * 37 + kk * 41 IN
                     IF VStride = 1 /\ fam \notin {"bin", "cond", "opasg", "d2l", "d2r"} THEN TRUE
                     ELSE IF fam \in {"ptr", "ccinit", "ccarg", "ccret", "ccassign", "aopasg", "case", "enum"} THEN (h + Seed) % VStride = 0
+                    ELSE IF fam = "asgv" THEN (h + Seed) % VStride = 0
                     ELSE h % Base = 0 /\ ((h \div Base) + Seed) % VStride = 0
 
 LeafJ(t, n) == [k |-> "leaf", t |-> t, v |-> VS(t)[n]]
@@ -167,6 +192,9 @@ TreeJ(ii, jj, kk) ==
     [] fam = "un"   -> [k |-> "un", op |-> op, a |-> LeafJ(a, ii)]
     [] fam = "cast" -> [k |-> "cast", t |-> b, a |-> LeafJ(a, ii)]
     [] fam = "cc"   -> [k |-> "cast", t |-> c, a |-> [k |-> "cast", t |-> b, a |-> LeafJ(a, ii)]]
+    [] fam = "wrap0" -> LET p == WrapPair(a, op, ii) IN
+                        [k |-> "cast", t |-> b, a |-> [k |-> "bin", op |-> op, a |-> [k |-> "leaf", t |-> a, v |-> ToDec(p[1])],
+                                                       b |-> [k |-> "leaf", t |-> a, v |-> ToDec(p[2])]]]
     [] fam \in {"ccinit", "ccarg", "ccret", "ccassign"} -> [k |-> "cast", t |-> b, a |-> LeafJ(a, ii)]
     [] fam = "cond" -> [k |-> "cond", c |-> LeafJ(c, kk), a |-> LeafJ(a, ii), b |-> LeafJ(b, jj)]
     [] fam = "d2l"  -> [k |-> "bin", op |-> op2, a |-> [k |-> "bin", op |-> op, a |-> LeafJ(a, ii), b |-> LeafJ(b, jj)], b |-> LeafJ(c, kk)]
@@ -177,6 +205,7 @@ TreeZ(ii, jj, kk) ==
     [] fam = "un"   -> UnE(op, LeafZ(a, ii))
     [] fam = "cast" -> CastE(b, LeafZ(a, ii))
     [] fam = "cc"   -> CastE(c, CastE(b, LeafZ(a, ii)))
+    [] fam = "wrap0" -> LET p == WrapPair(a, op, ii) IN CastE(b, BinE(op, Leaf(a, p[1]), Leaf(a, p[2])))
     [] fam \in {"ccinit", "ccarg", "ccret", "ccassign"} -> CastE(b, LeafZ(a, ii))
     [] fam = "cond" -> CondE(LeafZ(c, kk), LeafZ(a, ii), LeafZ(b, jj))
     [] fam = "d2l"  -> BinE(op2, BinE(op, LeafZ(a, ii), LeafZ(b, jj)), LeafZ(c, kk))
@@ -245,7 +274,29 @@ EmitEnum(ii, jj) ==
        LAMBDA r : r.ok /\ CSVWrite("%1$s", <<ToJson([f |-> "enum", op |-> op, form |-> op2, tc |-> a, v0 |-> TLCGet(12)["int"][ii],
                                                       c |-> TLCGet(14)[a][jj], n |-> ToDec(r.v), m |-> ToDec(r.next),
                                                       dz |-> FALSE])>>, IOEnv.OUT))
+(* the value of the assignment expression d = x is the value stored, Convert(x, b), of type b (6.5.16p3),
+   whatever kind of object d is; u is what the use prints *)
+EmitAsgv(ii) ==
+  LET x == TLCGet(15)[a][ii]
+      v == Convert(x, b)
+      inidx == ~Lt(v, Zero) /\ Lt(v, FromInt(300))
+      u == CASE op = "cmp" -> "1"
+             [] op = "cond" -> (IF v = Zero THEN "0" ELSE "1")
+             [] op = "index" -> ToDecU(64, Add(Mul(v, FromInt(3)), One))       \* tab[i] = 3 i + 1
+             [] op = "chain" -> ToDecU(64, Convert(v, c))
+             [] OTHER -> ToDecU(64, v)
+  IN (op = "index" => inidx)
+     /\ CSVWrite("%1$s", <<ToJson([f |-> "asgv", op |-> op, ta |-> a, td |-> b, tc |-> c, xv |-> TLCGet(16)[a][ii],
+                                    v |-> ToDec(v), u |-> u, obj |-> ToDecU(64, v), dz |-> FALSE])>>, IOEnv.OUT)
+EmitFcmp(ii, jj) ==
+  LET x == FV[ii]  y == FV[jj]
+      r == IF op = "toint" THEN FToInt(x, b) ELSE IF op = "cond" THEN FCond(x) ELSE FCmp(op, x, y)
+  IN r.ok /\ CSVWrite("%1$s", <<ToJson([f |-> "fcmp", op |-> op, tf |-> a, td |-> b, x |-> x.n, y |-> y.n,
+                                          t |-> r.t, sz |-> StoreW(r.t) \div 8, sg |-> Sg(r.t),
+                                          u |-> ToDecU(64, r.v), s |-> ToDec(r.v), dz |-> FALSE])>>, IOEnv.OUT)
 Emit(ii, jj, kk) == IF fam = "ptr" THEN EmitPtr(ii, jj)
+                    ELSE IF fam = "asgv" THEN EmitAsgv(ii)
+                    ELSE IF fam = "fcmp" THEN EmitFcmp(ii, jj)
                     ELSE IF fam = "case" THEN EmitCase(ii, jj)
                     ELSE IF fam = "enum" THEN EmitEnum(ii, jj)
                     ELSE With(Expect(ii, jj, kk), LAMBDA r : EmitR(r, ii, jj, kk))
